@@ -358,3 +358,53 @@ Example C02_PrevOne_nonvacuous :
   PrevOne [2^63; 2] 0 63 = Some (-1) /\ Select32 [2^63; 2] [63] 0 = Some (63, 65) /\
   PrevOne [2^63; 2] 0 65 = Some 63.
 Proof. vm_compute. intuition congruence. Qed.
+
+(** * very large bitmaps: what the run-length-encoded operations evaluate IS the model's output
+
+    For bitmaps of 2^15 .. 140 000 words the operations [bitmap.Select32/rle], [bitmap.Select32R64/rle],
+    [bitmap.IndexSelect32/rle], [bitmap.IndexSelect32R64/rle] (Run/C02.v) evaluate the linear-time
+    [lin_Select] / [lin_IndexSelect32] of Spec/SelectLinSpec.v (one pass over the words carrying the running
+    count) because the faithful model is quadratic in the number of words.  These theorems say that nothing is
+    lost: on the whole domain it is the model's output and the specification value. *)
+From Low Require Import Spec.SelectLinSpec Proofs.SelectLin.
+
+Theorem C02_rle_run_is_model_Select32 : forall ws sidx i, words_ok ws -> IndexSelect32 ws = Some sidx ->
+  0 <= i < zlen (all_ones ws) ->
+  lin_Select ws i = Select32 ws sidx i.
+Proof. exact lin_Select_is_Select32. Qed.
+Print Assumptions C02_rle_run_is_model_Select32.
+
+Theorem C02_rle_run_is_model_Select32R64 : forall ws sidx ridx i, words_ok ws ->
+  IndexSelect32R64 ws = Some (sidx, ridx) -> 0 <= i < zlen (all_ones ws) ->
+  lin_Select ws i = Select32R64 ws sidx ridx i.
+Proof. exact lin_Select_is_Select32R64. Qed.
+Print Assumptions C02_rle_run_is_model_Select32R64.
+
+Theorem C02_rle_run_is_model_IndexSelect32 : forall ws, words_ok ws ->
+  IndexSelect32 ws = Some (lin_IndexSelect32 ws).
+Proof. exact lin_IndexSelect32_is_model. Qed.
+Print Assumptions C02_rle_run_is_model_IndexSelect32.
+
+(** ... and the specification value; outside the domain the linear evaluator says so ([None], a tool error
+    of the generator, never a verdict) *)
+Theorem C02_rle_run_is_spec : forall ws i, words_ok ws -> 0 <= i < zlen (all_ones ws) ->
+  lin_Select ws i = Some (spec_Select ws i).
+Proof. exact lin_Select_spec. Qed.
+Print Assumptions C02_rle_run_is_spec.
+
+Theorem C02_rle_run_domain : forall ws i, words_ok ws ->
+  ~ (0 <= i < zlen (all_ones ws)) -> lin_Select ws i = None.
+Proof. exact lin_Select_None. Qed.
+Print Assumptions C02_rle_run_domain.
+
+Theorem C02_rle_index_is_spec : forall ws, words_ok ws -> lin_IndexSelect32 ws = spec_IndexSelect32 ws.
+Proof. exact lin_IndexSelect32_spec. Qed.
+Print Assumptions C02_rle_index_is_spec.
+
+Example C02_rle_nonvacuous :
+  c02_expand_rle [(1, 2^33 - 1); (1, 0); (1, 2^63); (1, 1)] = c02_ex /\
+  lin_Select c02_ex 33 = Some (191, 192) /\ lin_Select c02_ex 34 = Some (192, 256) /\
+  lin_Select c02_ex 35 = None /\ lin_IndexSelect32 c02_ex = [0; 32] /\
+  lin_IndexSelect32 (c02_expand_rle [(3, 2^64 - 1)]) = [0; 32; 64; 96; 128; 160] /\
+  c02_index_rle [0; 32; 64; 96; 128; 160] = [(1, 0); (5, 32)].
+Proof. vm_compute. intuition congruence. Qed.
